@@ -8,7 +8,7 @@ d = tempfile.mkdtemp(prefix="yvdbg-")
 os.makedirs(d + "/model")
 open(d + "/model/model.yml", "w").write(r["model"])
 nsname = r.get("namespace", "Dbg")
-open(d + "/model/_package.yml", "w").write("namespace: %s\ncpp:\n  sourcesOutputDir: ../cpp/generated\n  generateCMakeLists: false\n  generateHDF5: false\n  generateNDJson: false\n  overrideArrayHeader: ndarray_shim.h\npython:\n  outputDir: ../python\n" % nsname)
+open(d + "/model/_package.yml", "w").write("namespace: %s\ncpp:\n  sourcesOutputDir: ../cpp/generated\n  generateCMakeLists: false\n  generateHDF5: false\n  generateNDJson: %s\n  overrideArrayHeader: ndarray_shim.h\npython:\n  outputDir: ../python\n" % (nsname, "true" if "--ndjson" in sys.argv else "false"))
 p = subprocess.run(["/verif/.cache/bin/yardl", "generate"], cwd=d + "/model", capture_output=True, text=True)
 print(p.stdout, p.stderr)
 proto = r["protocol"]
@@ -37,7 +37,7 @@ if "--cpp" in sys.argv:
     class C: pass
     ctx = C(); ctx.scratch = d; ctx.yardl = "/verif/.cache/bin/yardl"
     gp = genrun.GenPackage.__new__(genrun.GenPackage)
-    gp.ctx, gp.pkg, gp.name, gp.ndjson, gp.dir = ctx, pk, "x", False, d
+    gp.ctx, gp.pkg, gp.name, gp.ndjson, gp.dir = ctx, pk, "x", "--ndjson" in sys.argv, d
     ok = gp.cpp_build(asan="--asan" in sys.argv, opt="-O0")
     print("cpp build", ok, getattr(gp, "cpp_err", "")[-3000:])
     if ok:
@@ -46,6 +46,30 @@ if "--cpp" in sys.argv:
             print("cpp batch", b, "rc", c["rc"], "identical:", c["out"] == data, c["err"][-1500:])
             if c["out"] != data:
                 print(" out:", c["out"].hex()[-300:]); print(" ref:", data.hex()[-300:])
+if "--ndjson" in sys.argv:
+    try:
+        rd = getattr(mod, "Binary%sReader" % proto)(io.BytesIO(data))
+        out = io.StringIO()
+        wr = getattr(mod, "NDJson%sWriter" % proto)(out)
+        rd.copy_to(wr); rd.close(); wr.close()
+        print("PY NDJSON:\n" + "\n".join(out.getvalue().split("\n")[1:]))
+        pyj = out.getvalue()
+    except Exception:
+        traceback.print_exc(); pyj = None
+    if "--cpp" in sys.argv and ok:
+        c = gp.cpp_call(proto, "binary", "ndjson", data)
+        cj = c["out"].decode()
+        print("CPP NDJSON rc", c["rc"], c["err"][-300:], "\n" + "\n".join(cj.split("\n")[1:]))
+        if pyj:
+            c2 = gp.cpp_call(proto, "ndjson", "binary", pyj.encode())
+            print("cpp reads py ndjson: rc", c2["rc"], c2["err"][-300:], c2["out"] == data)
+        try:
+            rd = getattr(mod, "NDJson%sReader" % proto)(io.StringIO(cj))
+            out = io.BytesIO(); wr = getattr(mod, "Binary%sWriter" % proto)(out)
+            rd.copy_to(wr); rd.close(); wr.close()
+            print("py reads cpp ndjson ok, identical:", out.getvalue() == data)
+        except Exception:
+            traceback.print_exc()
 print("dir:", d)
 if "--keep" not in sys.argv:
     shutil.rmtree(d)
